@@ -83,6 +83,9 @@ func bindValues() []zoo.Named {
 		{"map-any-with-nan", map[string]any{"x": math.NaN()}},
 		{"deep", map[string]any{"l1": map[string]any{"l2": map[string]any{"l3": []any{map[string]any{"id": 1}}}}}},
 		{"number-as-string-id", map[string]any{"id": "12", "name": "n"}},
+		{"html-string", "<b>R&D</b>"}, {"html-in-map", map[string]any{"name": "<i>a&b</i>", "id": 1}}, {"html-in-struct", user{1, "x<y>&z"}},
+		{"raw-with-html", json.RawMessage(`{"name":"<b>"}`)}, {"line-sep", "a\u2028b"},
+		{"result-of-int", flyt.NewResult(5)}, {"result-of-map", flyt.NewResult(map[string]any{"id": 2})}, {"error-result", flyt.NewErrorResult(fmt.Errorf("e"))}, {"zero-result", flyt.Result{}},
 		{"float-id", map[string]any{"id": 1.5}},
 		{"big-id", map[string]any{"id": 1e30}},
 	}
@@ -116,6 +119,8 @@ func bindDests() []namedDest {
 		{"**user-nil", func() any { return new(*user) }},
 		{"*[]byte", func() any { return new([]byte) }},
 		{"*json.RawMessage", func() any { return new(json.RawMessage) }},
+		{"*struct-with-raw", func() any { return new(struct{ Name json.RawMessage `json:"name"` }) }},
+		{"*flyt.Result", func() any { r := flyt.NewResult("pre"); return &r }},
 		{"*chan", func() any { return new(chan int) }},
 		{"*func", func() any { return new(func()) }},
 		{"*withUnexported", func() any { return &withUnexported{A: -1, b: -1} }},
